@@ -43,9 +43,11 @@ type FuncContract struct {
 	NoExit   map[int][]string
 	Invs     map[int][]Clause
 	Binds    map[int][]string
+	BindCalls map[string][]string // callee name -> names for the results of its first call site
 	Lets     []LetClause
 	SafetyProps []string
 	FrameProps []string
+	Writes   *WritesClause
 	AllProps []string
 	Track    []string
 	PureCallbacks map[string]bool
@@ -66,6 +68,37 @@ type Pred struct {
 }
 
 var predRe = regexp.MustCompile(`^pred\s+([A-Za-z0-9_]+)\s*\(([^)]*)\)\s*=\s*(.*)$`)
+
+// WritesClause: every heap write of the function goes to memory allocated during the call or to the
+// footprint of one of the listed references.
+type WritesClause struct {
+	Props []string
+	Text  string
+	Exprs []ast.Expr
+	Elems []bool // target is "every value stored in this map / slice"
+	Texts []string
+}
+
+func splitTopLevel(s string) []string {
+	var parts []string
+	d, last := 0, 0
+	inStr := false
+	for i := 0; i < len(s); i++ {
+		switch {
+		case s[i] == '"':
+			inStr = !inStr
+		case inStr:
+		case s[i] == '(' || s[i] == '{' || s[i] == '[':
+			d++
+		case s[i] == ')' || s[i] == '}' || s[i] == ']':
+			d--
+		case s[i] == ',' && d == 0:
+			parts = append(parts, s[last:i])
+			last = i + 1
+		}
+	}
+	return append(parts, s[last:])
+}
 
 type LetClause struct {
 	Name string
@@ -112,6 +145,7 @@ func splitNames(s string) []string {
 var funcHdrRe = regexp.MustCompile(`^func\s+([A-Za-z0-9_.$]+)\s*\(([^)]*)\)\s*(?:\(([^)]*)\))?\s*$`)
 var atRe = regexp.MustCompile(`^at\s+([A-Za-z0-9_.$]+)\s*\(([^)]*)\)\s*(\[[A-Z0-9, ]+\])?\s*:\s*(.*)$`)
 var loopRe = regexp.MustCompile(`^(noexit|invariant|bind)\s+loop\s+(\d+)\s*(.*)$`)
+var bindCallRe = regexp.MustCompile(`^bind\s+call\s+([A-Za-z0-9_.$]+)\s*:\s*(.*)$`)
 
 // sugar: A ==> B  (lowest precedence, right associative) becomes implies(A, B); A <==> B becomes iff(A,B)
 func desugar(s string) string {
@@ -330,6 +364,33 @@ func parseContractFile(path, pkgPath string, preds map[string]*Pred) ([]*FuncCon
 			}
 		case "safety":
 			cur.SafetyProps = append(cur.SafetyProps, strings.Fields(strings.ReplaceAll(rest, ",", " "))...)
+		case "writes":
+			props, body := parseProps(rest)
+			wc := &WritesClause{Props: props, Text: body}
+			if strings.TrimSpace(body) != "fresh" && strings.TrimSpace(body) != "nothing" {
+				for _, part := range splitTopLevel(body) {
+					part = strings.TrimSpace(part)
+					if part == "fresh" || part == "" {
+						continue
+					}
+					isElems := false
+					if strings.HasPrefix(part, "elems(") && strings.HasSuffix(part, ")") {
+						isElems = true
+						part = part[len("elems(") : len(part)-1]
+					}
+					ex, err := parseExprText(part)
+					if err != nil {
+						return nil, fail(l, "parse: %v", err)
+					}
+					wc.Exprs = append(wc.Exprs, ex)
+					wc.Elems = append(wc.Elems, isElems)
+					if isElems {
+						part = "elems(" + part + ")"
+					}
+					wc.Texts = append(wc.Texts, part)
+				}
+			}
+			cur.Writes = wc
 		case "frame":
 			cur.FrameProps = append(cur.FrameProps, strings.Fields(strings.ReplaceAll(rest, ",", " "))...)
 		case "track":
@@ -368,6 +429,13 @@ func parseContractFile(path, pkgPath string, preds map[string]*Pred) ([]*FuncCon
 			}
 			cur.Ats = append(cur.Ats, AtClause{Callee: m[1], Binders: splitNames(m[2]), Props: props, Text: m[4], Expr: ex, Line: l.no})
 		case "noexit", "invariant", "bind":
+			if bm := bindCallRe.FindStringSubmatch(t); bm != nil {
+				if cur.BindCalls == nil {
+					cur.BindCalls = map[string][]string{}
+				}
+				cur.BindCalls[bm[1]] = splitNames(bm[2])
+				break
+			}
 			m := loopRe.FindStringSubmatch(t)
 			if m == nil {
 				return nil, fail(l, "malformed loop clause")
@@ -422,6 +490,9 @@ func parseContractFile(path, pkgPath string, preds map[string]*Pred) ([]*FuncCon
 		}
 		add(c.SafetyProps)
 		add(c.FrameProps)
+		if c.Writes != nil {
+			add(c.Writes.Props)
+		}
 		for p := range set {
 			c.AllProps = append(c.AllProps, p)
 		}
